@@ -171,55 +171,94 @@ Qed.
 Lemma elog_app a b : elog_of (a ++ b) = elog_of a ++ elog_of b.
 Proof. unfold elog_of. now rewrite flat_map_app. Qed.
 
-Lemma flush_ok ds0 bs0 f w ds bs sz ff w' ops ok :
+Lemma flush_clean_ok ds0 bs0 f w ds bs sz ff w' ops ok :
   View f ds bs [] -> prefix ds0 ds -> prefix bs0 bs ->
-  w_end w = clen (pre ++ bc bs) -> ff_ok sz ff ->
-  flush true w sz ff = (w', ops, ok) ->
-  exists bs',
-    View (fs_run f ops) ds bs' [] /\ prefix bs bs' /\
+  w_end w = clen (pre ++ bc bs) -> w_dirty w = false -> ff_ok sz ff ->
+  flush_clean true w sz ff = (w', ops, ok) ->
+  exists bs' t',
+    View (fs_run f ops) ds bs' t' /\ (w_dirty w' = false -> t' = []) /\ prefix bs bs' /\
     w_end w' = clen (pre ++ bc bs') /\ w_open w' = w_open w /\
     chain (P0 ds0 bs0) f ops /\
     elog_of bs' ++ w_buf w' = elog_of bs ++ w_buf w /\
-    (ok = true -> w_buf w' = []).
+    (ok = true -> w_buf w' = [] /\ w_dirty w' = false).
 Proof.
-  intros HV H1 H2 Hend [Hsz Hff] Hfl. unfold flush in Hfl.
+  intros HV H1 H2 Hend Hdirty [Hsz Hff] Hfl. unfold flush_clean in Hfl.
   destruct (w_buf w) as [|e es] eqn:Hbuf.
-  { injection Hfl as <- <- <-. exists bs. split7; auto using prefix_refl.
+  { injection Hfl as <- <- <-. exists bs, []. split; [exact HV|]. split7; auto using prefix_refl.
     - constructor. eapply view_P0; eauto.
     - now rewrite Hbuf. }
   set (b := mkblock (e :: es) sz) in *.
   assert (Hb : 1 <= b_plen b) by exact Hsz.
-  assert (Hfull : forall okk, exists bs',
-    View (fs_run f (block_write_ops b (blen b) ++ [OHdr])) ds bs' [] /\ prefix bs bs' /\
-    w_end (mkw (w_open w) [] (w_end w + blen b)) = clen (pre ++ bc bs') /\
-    w_open (mkw (w_open w) [] (w_end w + blen b)) = w_open w /\
+  set (wd := mkw (w_open w) [] (w_end w + blen b) false) in *.
+  assert (Hfull : forall okk, exists bs' t',
+    View (fs_run f (block_write_ops b (blen b) ++ [OHdr])) ds bs' t' /\ (w_dirty wd = false -> t' = []) /\
+    prefix bs bs' /\ w_end wd = clen (pre ++ bc bs') /\ w_open wd = w_open w /\
     chain (P0 ds0 bs0) f (block_write_ops b (blen b) ++ [OHdr]) /\
-    elog_of bs' ++ w_buf (mkw (w_open w) [] (w_end w + blen b)) = elog_of bs ++ e :: es /\
-    (okk = true -> w_buf (mkw (w_open w) [] (w_end w + blen b)) = [])).
+    elog_of bs' ++ w_buf wd = elog_of bs ++ e :: es /\
+    (okk = true -> w_buf wd = [] /\ w_dirty wd = false)).
   { intros okk. destruct (bw_full ds0 bs0 f ds bs b HV H1 H2 Hb) as [HV2 Hc].
-    exists (bs ++ [b]). rewrite <- fs_run_app, fs_run_one.
-    split7; auto using prefix_app.
-    + cbn [w_end]. rewrite Hend, bc_app, !clen_app. unfold blen. simpl. lia.
+    exists (bs ++ [b]), []. rewrite <- fs_run_app, fs_run_one.
+    split; [exact HV2|]. split7; auto using prefix_app.
+    + unfold wd. cbn [w_end]. rewrite Hend, bc_app, !clen_app. unfold blen. simpl. lia.
     + apply chain_app; [exact Hc|]. constructor; [eapply view_P0; eauto|].
       * eapply prefix_trans; eauto using prefix_app.
       * constructor. eapply view_P0; eauto. eapply prefix_trans; eauto using prefix_app.
-    + cbn [w_buf]. rewrite elog_app, app_nil_r. simpl. now rewrite app_nil_r. }
-  destruct ff as [|j|].
+    + unfold wd. cbn [w_buf]. rewrite elog_app, app_nil_r. simpl. now rewrite app_nil_r. }
+  destruct ff as [|j| |j|].
   - injection Hfl as <- <- <-. apply Hfull.
   - (* short write: cut back, keep the entries *)
     injection Hfl as <- <- <-.
     destruct (bw_short ds0 bs0 f ds bs b j HV H1 H2 Hb ltac:(unfold blen; exact Hff)) as (t & HVt & Hc).
     assert (HV3 := V_trunc _ ds bs t HVt).
-    exists bs. rewrite <- fs_run_app, fs_run_one, Hend.
-    split7; auto using prefix_refl.
+    exists bs, []. rewrite <- fs_run_app, fs_run_one, Hend.
+    split; [exact HV3|]. split7; auto using prefix_refl.
     + apply chain_app; [exact Hc|]. constructor; [eapply view_P0; eauto|].
       constructor. eapply view_P0; eauto.
     + now rewrite Hbuf.
     + discriminate.
   - injection Hfl as <- <- <-. apply Hfull.
+  - (* short write and the truncation back failed: the tail stays, the writer remembers it *)
+    injection Hfl as <- <- <-.
+    destruct (bw_short ds0 bs0 f ds bs b j HV H1 H2 Hb ltac:(unfold blen; exact Hff)) as (t & HVt & Hc).
+    exists bs, t. split; [exact HVt|]. split7; auto using prefix_refl.
+    + cbn [w_dirty]. discriminate.
+    + discriminate.
+  - injection Hfl as <- <- <-. apply Hfull.
 Qed.
 
-(* ---- NewFileWriter: create / open existing *)
+Lemma flush_ok ds0 bs0 f w ds bs t sz ff w' ops ok :
+  View f ds bs t -> (w_dirty w = false -> t = []) -> prefix ds0 ds -> prefix bs0 bs ->
+  w_end w = clen (pre ++ bc bs) -> ff_ok sz ff ->
+  flush true w sz ff = (w', ops, ok) ->
+  exists bs' t',
+    View (fs_run f ops) ds bs' t' /\ (w_dirty w' = false -> t' = []) /\ prefix bs bs' /\
+    w_end w' = clen (pre ++ bc bs') /\ w_open w' = w_open w /\
+    chain (P0 ds0 bs0) f ops /\
+    elog_of bs' ++ w_buf w' = elog_of bs ++ w_buf w /\
+    (ok = true -> w_buf w' = [] /\ w_dirty w' = false).
+Proof.
+  intros HV Hdt H1 H2 Hend Hff Hfl. unfold flush in Hfl.
+  destruct (w_dirty w) eqn:Hd.
+  2:{ rewrite (Hdt eq_refl) in HV. eapply flush_clean_ok; eauto. }
+  assert (Hcase : ff = FFpre \/
+     (let '(w1, ops1, ok1) := flush_clean true (mkw (w_open w) (w_buf w) (w_end w) false) sz ff in
+      (w1, OTrunc (w_end w) :: ops1, ok1)) = (w', ops, ok)).
+  { destruct ff; auto. }
+  destruct Hcase as [->|Hc].
+  - (* the dirty tail could not be removed: nothing happens *)
+    injection Hfl as <- <- <-. exists bs, t. split; [exact HV|]. split7; auto using prefix_refl.
+    + intros E. rewrite Hd in E. discriminate.
+    + constructor. eapply view_P0; eauto.
+    + discriminate.
+  - destruct (flush_clean true (mkw (w_open w) (w_buf w) (w_end w) false) sz ff)
+      as [[w1 ops1] ok1] eqn:Hfc. injection Hc as <- <- <-.
+    assert (HV0 : View (fs_step f (OTrunc (w_end w))) ds bs []).
+    { rewrite Hend. eapply V_trunc; eauto. }
+    destruct (flush_clean_ok ds0 bs0 _ (mkw (w_open w) (w_buf w) (w_end w) false) ds bs sz ff w1 ops1 ok1 HV0 H1 H2 Hend eq_refl Hff Hfc)
+      as (bs' & t' & HV' & Hd' & Hp' & He' & Ho' & Hc' & Hl' & Hb').
+    exists bs', t'. rewrite fs_run_cons. split; [exact HV'|]. split7; auto.
+    constructor; [eapply view_P0; eauto|exact Hc'].
+Qed.
 
 Lemma prefix_of_nil {A} (l : list A) : prefix l [] -> l = [].
 Proof. intros [x Hx]. symmetry in Hx. now apply app_eq_nil in Hx. Qed.
@@ -278,13 +317,13 @@ Lemma open_ok f ds bs w' ops :
   Inv f ds bs -> open_file true nlen f = (w', ops) ->
   exists ds',
     View (fs_run f ops) ds' bs [] /\ prefix ds ds' /\
-    w_end w' = clen (pre ++ bc bs) /\ w_open w' = true /\ w_buf w' = [] /\
+    w_end w' = clen (pre ++ bc bs) /\ w_open w' = true /\ (w_buf w' = [] /\ w_dirty w' = false) /\
     chain (P0 ds bs) f ops.
 Proof.
   intros (Hd & Hv & Hp & Hok) Hop. unfold open_file in Hop.
-  assert (Hcreate : bs = [] -> (w', ops) = (mkw true [] (pre_len nlen), create_ops nlen) ->
+  assert (Hcreate : bs = [] -> (w', ops) = (mkw true [] (pre_len nlen) false, create_ops nlen) ->
           exists ds', View (fs_run f ops) ds' bs [] /\ prefix ds ds' /\
-             w_end w' = clen (pre ++ bc bs) /\ w_open w' = true /\ w_buf w' = [] /\
+             w_end w' = clen (pre ++ bc bs) /\ w_open w' = true /\ (w_buf w' = [] /\ w_dirty w' = false) /\
              chain (P0 ds bs) f ops).
   { intros -> E. injection E as -> ->. apply prefix_of_nil in Hp. subst ds.
     destruct (create_chain f (P0 [] [])) as (Hc & Hdur & Hvol).
@@ -322,10 +361,19 @@ Qed.
 
 (* between API calls: the file is well-shaped; while the writer is open its volatile image is
    clean (no torn tail) and the writer's end offset is the end of the last block *)
+(* while the writer is open: complete header area, complete blocks, and a torn tail only when
+   the writer knows about it (w_dirty = tailDirty); the writer's end offset is the end of the
+   last complete block *)
+Definition OpenInv (f : fs) (w : wstate) (ds bs : list block) : Prop :=
+  exists t, View f ds bs t /\ (w_dirty w = false -> t = []) /\ w_end w = clen (pre ++ bc bs).
+
 Definition SInv (f : fs) (w : wstate) (ds bs : list block) : Prop :=
   Inv f ds bs /\
-  (w_open w = true -> View f ds bs [] /\ w_end w = clen (pre ++ bc bs)) /\
+  (w_open w = true -> OpenInv f w ds bs) /\
   (w_open w = false -> w_buf w = []).
+
+Lemma openinv_inv f w ds bs : OpenInv f w ds bs -> Inv f ds bs.
+Proof. intros (t & HV & _). eapply view_inv; eauto. Qed.
 
 Definition sub1 (open : bool) (a : api) : list entry :=
   match a with AWrite e _ => if open then [e] else [] | _ => [] end.
@@ -347,7 +395,7 @@ Definition StepConcl f w ds bs a (w' : wstate) ops (ok : bool) : Prop :=
 
 Lemma step_concl f w ds bs a (w' : wstate) ops ok ds' bs' :
   Inv (fs_run f ops) ds' bs' ->
-  (w_open w' = true -> View (fs_run f ops) ds' bs' [] /\ w_end w' = clen (pre ++ bc bs')) ->
+  (w_open w' = true -> OpenInv (fs_run f ops) w' ds' bs') ->
   (w_open w' = false -> w_buf w' = []) ->
   prefix ds ds' -> prefix bs bs' -> chain (P0 ds bs) f ops ->
   (is_close a && negb ok = false ->
@@ -360,10 +408,11 @@ Ltac disc := intros; first [discriminate | cbn [is_close is_barrier negb andb w_
 Ltac pfx := first [apply prefix_refl | assumption].
 Ltac vp0 H := eapply view_P0; [exact H | pfx | pfx].
 
-Ltac sc dsx bsx HV Hend tchain ttrack tbar :=
+(* HV : View of the final state; HO : OpenInv of the final state (or I when w' is closed) *)
+Ltac sc dsx bsx HV HO tchain ttrack tbar :=
   apply step_concl with (ds' := dsx) (bs' := bsx);
   [ eapply view_inv; exact HV
-   | first [disc | intros _; split; [exact HV | exact Hend]]
+   | first [disc | intros _; exact HO]
    | first [congruence | disc | intros _; reflexivity]
    | pfx | pfx | tchain | ttrack | tbar ].
 
@@ -379,86 +428,95 @@ Proof.
     - constructor. exists ds, bs. auto using prefix_refl.
     - intros _. now rewrite Hs, app_nil_r.
     - destruct Hb; congruence. }
-  unfold w_step, w_step_gen in Hstep. destruct a as [e fl|sz ff|sz ff sok|sz ff sok|].
+  unfold w_step, w_step_gen in Hstep. destruct a as [e fl|sz ff|sz ff sok|sz ff sok| |tr].
   - (* WriteEntry *)
     destruct (w_open w) eqn:Ho; simpl negb in Hstep; cbv iota in Hstep.
     2:{ injection Hstep as <- <- <-. apply Hnop; auto. }
-    destruct (Hopen eq_refl) as [HV Hend].
+    destruct (Hopen eq_refl) as (t & HV & Hdt & Hend).
     destruct fl as [[sz ff]|].
-    + destruct (flush_ok ds bs f (mkw true (w_buf w ++ [e]) (w_end w)) ds bs sz ff w' ops ok
-                  HV (prefix_refl _) (prefix_refl _) Hend Hapi Hstep)
-        as (bs' & HV' & Hp' & Hend' & Ho' & Hc & Hlog & Hbuf).
+    + destruct (flush_ok ds bs f (mkw true (w_buf w ++ [e]) (w_end w) (w_dirty w)) ds bs t sz ff w' ops ok
+                  HV Hdt (prefix_refl _) (prefix_refl _) Hend Hapi Hstep)
+        as (bs' & t' & HV' & Hdt' & Hp' & Hend' & Ho' & Hc & Hlog & Hbuf).
       cbn [w_open w_buf] in Ho', Hlog.
-      sc ds bs' HV' Hend'  ltac:(idtac; exact Hc)
+      assert (HO' : OpenInv (fs_run f ops) w' ds bs') by (exists t'; auto).
+      sc ds bs' HV' HO' ltac:(idtac; exact Hc)
            ltac:(idtac; intros _; rewrite Hlog; simpl; rewrite Ho; reflexivity) ltac:(idtac; disc).
     + injection Hstep as <- <- <-.
-      sc ds bs HV Hend  ltac:(idtac; constructor; vp0 HV)
+      assert (HO' : OpenInv (fs_run f []) (mkw true (w_buf w ++ [e]) (w_end w) (w_dirty w)) ds bs)
+        by (exists t; auto).
+      sc ds bs HV HO' ltac:(idtac; constructor; vp0 HV)
            ltac:(idtac; intros _; simpl; rewrite Ho, app_assoc; reflexivity) ltac:(idtac; disc).
   - (* Flush *)
     destruct (w_open w) eqn:Ho; simpl negb in Hstep; cbv iota in Hstep.
     2:{ injection Hstep as <- <- <-. apply Hnop; auto. }
-    destruct (Hopen eq_refl) as [HV Hend].
-    destruct (flush_ok ds bs f w ds bs sz ff w' ops ok
-                HV (prefix_refl _) (prefix_refl _) Hend Hapi Hstep)
-      as (bs' & HV' & Hp' & Hend' & Ho' & Hc & Hlog & Hbuf).
-    sc ds bs' HV' Hend'  ltac:(idtac; exact Hc)
+    destruct (Hopen eq_refl) as (t & HV & Hdt & Hend).
+    destruct (flush_ok ds bs f w ds bs t sz ff w' ops ok
+                HV Hdt (prefix_refl _) (prefix_refl _) Hend Hapi Hstep)
+      as (bs' & t' & HV' & Hdt' & Hp' & Hend' & Ho' & Hc & Hlog & Hbuf).
+    assert (HO' : OpenInv (fs_run f ops) w' ds bs') by (exists t'; auto).
+    sc ds bs' HV' HO' ltac:(idtac; exact Hc)
          ltac:(idtac; intros _; simpl; rewrite app_nil_r; exact Hlog) ltac:(idtac; disc).
   - (* Sync *)
     destruct (w_open w) eqn:Ho; simpl negb in Hstep; cbv iota in Hstep.
     2:{ injection Hstep as <- <- <-. apply Hnop; auto. }
-    destruct (Hopen eq_refl) as [HV Hend].
+    destruct (Hopen eq_refl) as (t & HV & Hdt & Hend).
     destruct (flush true w sz ff) as [[w1 ops1] ok1] eqn:Hfl.
-    destruct (flush_ok ds bs f w ds bs sz ff w1 ops1 ok1
-                HV (prefix_refl _) (prefix_refl _) Hend Hapi Hfl)
-      as (bs' & HV' & Hp' & Hend' & Ho' & Hc & Hlog & Hbuf).
+    destruct (flush_ok ds bs f w ds bs t sz ff w1 ops1 ok1
+                HV Hdt (prefix_refl _) (prefix_refl _) Hend Hapi Hfl)
+      as (bs' & t' & HV' & Hdt' & Hp' & Hend' & Ho' & Hc & Hlog & Hbuf).
     assert (Hdp : prefix ds bs') by (eapply prefix_trans; [apply HV|exact Hp']).
     destruct ok1; simpl negb in Hstep; cbv iota in Hstep.
     2:{ injection Hstep as <- <- <-.
-        sc ds bs' HV' Hend'  ltac:(idtac; exact Hc)
+        assert (HO' : OpenInv (fs_run f ops1) w1 ds bs') by (exists t'; auto).
+        sc ds bs' HV' HO' ltac:(idtac; exact Hc)
              ltac:(idtac; intros _; simpl; rewrite app_nil_r; exact Hlog) ltac:(idtac; disc). }
+    destruct (Hbuf eq_refl) as [Hbuf1 Hdirty1]. rewrite (Hdt' Hdirty1) in HV'.
     destruct sok; injection Hstep as <- <- <-.
     + assert (HV2 := V_fsync (fs_run f ops1) ds bs' HV').
       assert (HV3 : View (fs_run f (ops1 ++ [OHdr; OFsync])) bs' bs' []).
       { rewrite <- fs_run_app, fs_run_cons, fs_run_one. exact HV2. }
-      sc bs' bs' HV3 Hend' 
+      assert (HO' : OpenInv (fs_run f (ops1 ++ [OHdr; OFsync])) w1 bs' bs') by (exists []; auto).
+      sc bs' bs' HV3 HO'
            ltac:(idtac; apply chain_app; [exact Hc|]; constructor; [vp0 HV'|]; constructor; [vp0 HV'|];
                  constructor; vp0 HV2)
            ltac:(idtac; intros _; simpl; rewrite app_nil_r; exact Hlog)
-           ltac:(idtac; intros _ _ _; split; [reflexivity|apply Hbuf; reflexivity]).
+           ltac:(idtac; intros _ _ _; split; [reflexivity|exact Hbuf1]).
     + assert (HV3 : View (fs_run f (ops1 ++ [OHdr])) ds bs' []).
       { rewrite <- fs_run_app, fs_run_one. exact HV'. }
-      sc ds bs' HV3 Hend' 
+      assert (HO' : OpenInv (fs_run f (ops1 ++ [OHdr])) w1 ds bs') by (exists []; auto).
+      sc ds bs' HV3 HO'
            ltac:(idtac; apply chain_app; [exact Hc|]; constructor; [vp0 HV'|]; constructor; vp0 HV')
            ltac:(idtac; intros _; simpl; rewrite app_nil_r; exact Hlog) ltac:(idtac; disc).
   - (* Close *)
     destruct (w_open w) eqn:Ho; simpl negb in Hstep; cbv iota in Hstep.
     2:{ injection Hstep as <- <- <-. apply Hnop; auto. }
-    destruct (Hopen eq_refl) as [HV Hend].
+    destruct (Hopen eq_refl) as (t & HV & Hdt & Hend).
     destruct (flush true w sz ff) as [[w1 ops1] ok1] eqn:Hfl.
-    destruct (flush_ok ds bs f w ds bs sz ff w1 ops1 ok1
-                HV (prefix_refl _) (prefix_refl _) Hend Hapi Hfl)
-      as (bs' & HV' & Hp' & Hend' & Ho' & Hc & Hlog & Hbuf).
+    destruct (flush_ok ds bs f w ds bs t sz ff w1 ops1 ok1
+                HV Hdt (prefix_refl _) (prefix_refl _) Hend Hapi Hfl)
+      as (bs' & t' & HV' & Hdt' & Hp' & Hend' & Ho' & Hc & Hlog & Hbuf).
     assert (Hdp : prefix ds bs') by (eapply prefix_trans; [apply HV|exact Hp']).
     destruct ok1; simpl negb in Hstep; cbv iota in Hstep.
     2:{ injection Hstep as <- <- <-.
-        assert (HV3 : View (fs_run f (ops1 ++ [OClose])) ds bs' []).
+        assert (HV3 : View (fs_run f (ops1 ++ [OClose])) ds bs' t').
         { rewrite <- fs_run_app, fs_run_one. exact HV'. }
-        sc ds bs' HV3 Hend' 
+        sc ds bs' HV3 I
              ltac:(idtac; apply chain_app; [exact Hc|]; constructor; [vp0 HV'|]; constructor; vp0 HV')
              ltac:(idtac; disc) ltac:(idtac; disc). }
-    specialize (Hbuf eq_refl). rewrite Hbuf, app_nil_r in Hlog.
+    destruct (Hbuf eq_refl) as [Hbuf1 Hdirty1]. rewrite (Hdt' Hdirty1) in HV'.
+    rewrite Hbuf1, app_nil_r in Hlog.
     destruct sok; injection Hstep as <- <- <-.
     + assert (HV2 := V_fsync (fs_run f ops1) ds bs' HV').
       assert (HV3 : View (fs_run f (ops1 ++ [OHdr; OFsync; OClose])) bs' bs' []).
       { rewrite <- fs_run_app, !fs_run_cons. exact HV2. }
-      sc bs' bs' HV3 Hend' 
+      sc bs' bs' HV3 I
            ltac:(idtac; apply chain_app; [exact Hc|]; constructor; [vp0 HV'|]; constructor; [vp0 HV'|];
                  constructor; [vp0 HV2|]; constructor; vp0 HV2)
            ltac:(idtac; intros _; simpl; rewrite !app_nil_r; exact Hlog)
            ltac:(idtac; intros _ _ _; split; reflexivity).
     + assert (HV3 : View (fs_run f (ops1 ++ [OHdr; OClose])) ds bs' []).
       { rewrite <- fs_run_app, !fs_run_cons. exact HV'. }
-      sc ds bs' HV3 Hend' 
+      sc ds bs' HV3 I
            ltac:(idtac; apply chain_app; [exact Hc|]; constructor; [vp0 HV'|]; constructor; [vp0 HV'|];
                  constructor; vp0 HV')
            ltac:(idtac; disc) ltac:(idtac; disc).
@@ -466,10 +524,46 @@ Proof.
     destruct (w_open w) eqn:Ho.
     { injection Hstep as <- <- <-. apply Hnop; auto. }
     destruct (open_file true nlen f) as [w1 ops1] eqn:Hop. injection Hstep as <- <- <-.
-    destruct (open_ok f ds bs w1 ops1 HI Hop) as (ds' & HV & Hp & Hend & Ho1 & Hb1 & Hc).
-    sc ds' bs HV Hend  ltac:(idtac; exact Hc)
+    destruct (open_ok f ds bs w1 ops1 HI Hop) as (ds' & HV & Hp & Hend & Ho1 & [Hb1 Hd1] & Hc).
+    assert (HO' : OpenInv (fs_run f ops1) w1 ds' bs) by (exists []; auto).
+    sc ds' bs HV HO' ltac:(idtac; exact Hc)
          ltac:(idtac; intros _; simpl; rewrite Hb1, (Hclosed eq_refl), !app_nil_r; reflexivity)
          ltac:(idtac; disc).
+  - (* Open that fails while cutting the torn tail off *)
+    destruct (w_open w) eqn:Ho.
+    { injection Hstep as <- <- <-. apply Hnop; auto. }
+    destruct (vol f) as [c|] eqn:Hvol.
+    2:{ injection Hstep as <- <- <-. apply Hnop; auto. }
+    destruct (true && (pre_len nlen <=? clen c) && (good_len nlen c <? clen c)) eqn:Hcond.
+    2:{ injection Hstep as <- <- <-. apply Hnop; auto. }
+    injection Hstep as <- <- <-.
+    apply andb_true_iff in Hcond as [Hcond _]. apply andb_true_iff in Hcond as [_ Hlen].
+    apply N.leb_le in Hlen.
+    destruct HI as (Hd & Hv & Hp & Hok). rewrite Hvol in Hv.
+    inversion Hv as [|m E Hm Hc|t Ht Hc].
+    { exfalso. subst c. pose proof (clen_cut_le m pre). lia. }
+    subst c. rewrite good_len_full by assumption.
+    assert (HV : View f ds bs t) by (split5; auto).
+    assert (HV1 := V_trunc f ds bs t HV).
+    destruct tr.
+    + apply step_concl with (ds' := ds) (bs' := bs).
+      * simpl app. rewrite fs_run_cons, fs_run_one. eapply view_inv; exact HV1.
+      * intros E. rewrite Ho in E. discriminate.
+      * intros _. apply Hclosed. reflexivity.
+      * apply prefix_refl.
+      * apply prefix_refl.
+      * constructor; [vp0 HV|]. constructor; [vp0 HV1|]. constructor. vp0 HV1.
+      * intros _. simpl. now rewrite app_nil_r.
+      * intros _ H. discriminate H.
+    + apply step_concl with (ds' := ds) (bs' := bs).
+      * simpl app. rewrite fs_run_one. eapply view_inv; exact HV.
+      * intros E. rewrite Ho in E. discriminate.
+      * intros _. apply Hclosed. reflexivity.
+      * apply prefix_refl.
+      * apply prefix_refl.
+      * constructor; [vp0 HV|]. constructor. vp0 HV.
+      * intros _. simpl. now rewrite app_nil_r.
+      * intros _ H. discriminate H.
 Qed.
 
 End WithName.
@@ -482,8 +576,16 @@ Fixpoint no_failed_close (h : list api) (oks : list bool) : bool :=
   | _, _ => true
   end.
 
+Lemma flush_clean_open fixed w sz ff : w_open (fst (fst (flush_clean fixed w sz ff))) = w_open w.
+Proof. unfold flush_clean. destruct (w_buf w); [reflexivity|]. destruct ff, fixed; reflexivity. Qed.
+
 Lemma flush_open fixed w sz ff : w_open (fst (fst (flush fixed w sz ff))) = w_open w.
-Proof. unfold flush. destruct (w_buf w); [reflexivity|]. destruct ff, fixed; reflexivity. Qed.
+Proof.
+  unfold flush. destruct (w_dirty w); [|apply flush_clean_open].
+  pose proof (flush_clean_open fixed (mkw (w_open w) (w_buf w) (w_end w) false) sz ff) as E.
+  destruct (flush_clean fixed (mkw (w_open w) (w_buf w) (w_end w) false) sz ff) as [[w1 o1] k1].
+  destruct ff; exact E || reflexivity.
+Qed.
 
 Section Runs.
 Variable nlen : N.
@@ -492,10 +594,10 @@ Lemma step_open f w a w1 ops ok :
   w_step nlen f w a = (w1, ops, ok) ->
   w_open w1 = match a with AOpen => true | AClose _ _ _ => false | _ => w_open w end.
 Proof.
-  unfold w_step, w_step_gen. intros H. destruct a as [e fl|sz ff|sz ff sok|sz ff sok|].
+  unfold w_step, w_step_gen. intros H. destruct a as [e fl|sz ff|sz ff sok|sz ff sok| |tr].
   - destruct (w_open w) eqn:Ho; simpl in H.
     + destruct fl as [[sz ff]|].
-      * pose proof (flush_open true (mkw true (w_buf w ++ [e]) (w_end w)) sz ff) as E.
+      * pose proof (flush_open true (mkw true (w_buf w ++ [e]) (w_end w) (w_dirty w)) sz ff) as E.
         rewrite H in E. exact E.
       * now injection H as <- _ _.
     + injection H as <- _ _. exact Ho.
@@ -517,12 +619,18 @@ Proof.
       * destruct (clen c <? pre_len nlen); [now injection H as <- _ _|].
         now injection H as <- _ _.
       * now injection H as <- _ _.
+  - destruct (w_open w) eqn:Ho.
+    + injection H as <- _ _. exact Ho.
+    + destruct (vol f) as [c|].
+      * destruct (true && (pre_len nlen <=? clen c) && (good_len nlen c <? clen c));
+          injection H as <- _ _; exact Ho.
+      * injection H as <- _ _. exact Ho.
 Qed.
 
 Lemma submitted_cons open a t open1 :
   open1 = match a with AOpen => true | AClose _ _ _ => false | _ => open end ->
   submitted open (a :: t) = sub1 open a ++ submitted open1 t.
-Proof. intros ->. destruct a as [e fl| | | |]; simpl; try reflexivity. now destruct open. Qed.
+Proof. intros ->. destruct a as [e fl| | | | |]; simpl; try reflexivity. now destruct open. Qed.
 
 Lemma run_ok h : forall f w ds bs f' w' ops oks,
   SInv nlen f w ds bs -> Forall api_ok h -> w_run nlen f w h = (f', w', ops, oks) ->
